@@ -85,13 +85,13 @@ func (c *tcase) sig(cmd string) string {
 }
 
 type drv struct {
-	r    *ev.Run
-	srv  *fixture.ChildServer
-	c    *wire.Client // session holding the view selected
-	aux  *wire.Client // auxiliary session (inspects destination mailboxes)
-	cur  string       // currently selected mailbox of c
-	seq  int
-	rnd  *rand.Rand
+	r      *ev.Run
+	srv    *fixture.ChildServer
+	c      *wire.Client // session holding the view selected
+	aux    *wire.Client // auxiliary session (inspects destination mailboxes)
+	cur    string       // currently selected mailbox of c
+	seq    int
+	rnd    *rand.Rand
 	uidSeq []int
 }
 
@@ -585,7 +585,7 @@ func run(r *ev.Run, tier, replay string) {
 		if res := d.c.Cmd("NOOP"); res.Status == "OK" {
 			return true
 		}
-		if !d.srv.WaitExit(300*time.Millisecond) {
+		if !d.srv.WaitExit(300 * time.Millisecond) {
 			// process alive: only this connection was lost (already reported by verdict)
 			if err := d.reconnect(); err != nil {
 				r.Machinery("cannot reconnect to a live server: %v", err)
